@@ -430,3 +430,74 @@ func runC06PlainText(p *Prog, r *Report) {
 	r.ExpectMin("C06.newtext-literals", n, 40)
 	r.Clauses = append(r.Clauses, "C06(c) the NewText field of every lang.TextEdit and schema.CompletionData literal is not data-derived from a Snippet field, a snippet-producing function or a constant containing ${ (hook-provided RawInsertText is user data and not judged)")
 }
+
+// runC06Generator — C06.generator-threading: tab stops of one snippet are numbered by one
+// counter object. A method of a counter-carrying generator type (a struct with a
+// placeholder counter field) must produce nested snippets through the same object, never
+// through a function that constructs a fresh generator (its count would not flow back).
+func runC06Generator(p *Prog, r *Report) {
+	// generator types: module structs with a field named *laceholder* of integer type
+	isGen := func(t types.Type) bool {
+		st, ok := derefType(t).Underlying().(*types.Struct)
+		if !ok || !isModuleType(t) {
+			return false
+		}
+		for i := 0; i < st.NumFields(); i++ {
+			if strings.Contains(strings.ToLower(st.Field(i).Name()), "placeholder") {
+				if bt, ok := st.Field(i).Type().Underlying().(*types.Basic); ok && bt.Info()&types.IsInteger != 0 {
+					return true
+				}
+			}
+		}
+		return false
+	}
+	// constructors: functions whose body builds a generator literal
+	ctors := map[*types.Func]bool{}
+	for _, fn := range p.Funcs {
+		if fn.Body == nil || fn.Lit != nil || fn.Obj == nil {
+			continue
+		}
+		info := fn.Info()
+		ast.Inspect(fn.Body, func(m ast.Node) bool {
+			if cl, ok := m.(*ast.CompositeLit); ok {
+				if tv := info.TypeOf(cl); tv != nil && isGen(tv) {
+					ctors[fn.Obj] = true
+				}
+			}
+			return true
+		})
+	}
+	n := 0
+	for _, fn := range p.Funcs {
+		if fn.Body == nil || fn.Obj == nil {
+			continue
+		}
+		rv := recvObj(rootOf(fn))
+		if rv == nil || !isGen(rv.Type()) {
+			continue
+		}
+		info := fn.Info()
+		ast.Inspect(fn.Body, func(m ast.Node) bool {
+			c, ok := m.(*ast.CallExpr)
+			if !ok {
+				return true
+			}
+			f := calleeOf(info, c)
+			if f == nil || p.FuncOf[f] == nil {
+				return true
+			}
+			n++
+			if ctors[f] {
+				r.Add("C06.generator-threading", fn.Name, "call "+f.Name(), p.Pos(c), Violated,
+					f.Name()+" builds a fresh generator: the tab stops it uses are not added to this generator's counter, so following snippets re-use their numbers", true)
+			} else {
+				r.Add("C06.generator-threading", fn.Name, "call "+f.Name(), p.Pos(c), OK, "nested snippet produced through the same generator", false)
+			}
+			return true
+		})
+	}
+	r.Counts["C06.generator-method-calls"] = n
+	r.ExpectMin("C06.generator-method-calls", n, 3)
+	r.ExpectMin("C06.generator-constructors", len(ctors), 1)
+	r.Clauses = append(r.Clauses, "C06 methods of the snippet generator never start a fresh generator for a nested snippet")
+}
